@@ -1011,6 +1011,11 @@ def readGraph(input_file,
         except UnicodeEncodeError as errmsg:
             raise ValueError(
                 "[Non-ascii chars in GML file] {} ".format(errmsg))
+        except IndexError:
+            # networkx's tokenizer trips over an empty line inside
+            # a quoted string that is still open
+            raise ValueError(
+                "[Parse error in GML input] empty line inside a quoted string")
 
     elif file_format == 'kthlist' and graph_type == 'bipartite':
 
